@@ -435,6 +435,8 @@ def uf_abstract(t, cache=None):
 def prepare_staged(hyps, opt, goal, cands=()):
     """SMT-LIB texts for every stage, generated in the calling thread (the z3 API is not thread-safe)"""
     texts = {"all": to_smt2(hyps, goal)}
+    if hyps:
+        texts["pure"] = to_smt2([], skolemize_goal(goal)[0])      # valid without any hypothesis?
     if any(_has_quant(h) for h in list(hyps) + list(opt or [])) or _has_quant(goal):
         try:
             ih, ig = instantiate(list(hyps) + list(opt or []), goal)
@@ -509,7 +511,7 @@ def _discharge_staged(texts, timeout_s):
     Only a model of *all* hypotheses counts as a refutation; a model of the instantiated query is a candidate."""
     total = 0.0
     full_key = "all+opt" if "all+opt" in texts else "all"
-    prove_order = ["all", "all+opt", "inst", "inst+ufabs", "ufabs", "ring+ufabs", "ring", "cone0", "cone0+opt",
+    prove_order = ["all", "all+opt", "pure", "inst", "inst+ufabs", "ufabs", "ring+ufabs", "ring", "cone0", "cone0+opt",
                    "cone1", "cone1+opt"]
     last_full = None
     candidate = None
@@ -551,31 +553,195 @@ def _discharge_staged(texts, timeout_s):
     return r
 
 
+class Staged:
+    """lazily generated SMT-LIB texts of one obligation, stage by stage (always called from the main thread)"""
+
+    def __init__(self, hyps, opt, goal, cands=()):
+        self.hyps, self.opt, self.goal, self.cands = list(hyps), list(opt or []), goal, list(cands or ())
+        self.cache = {}
+        self._inst = None
+        self.quant = None
+
+    def has_quant(self):
+        if self.quant is None:
+            self.quant = any(_has_quant(h) for h in self.hyps + self.opt) or _has_quant(self.goal)
+        return self.quant
+
+    def inst(self):
+        if self._inst is None:
+            try:
+                self._inst = instantiate(self.hyps + self.opt, self.goal)
+            except z3.Z3Exception:
+                self._inst = False
+        return self._inst
+
+    def text(self, stage):
+        if stage not in self.cache:
+            try:
+                self.cache[stage] = self._gen(stage)
+            except z3.Z3Exception:
+                self.cache[stage] = None
+        return self.cache[stage]
+
+    def _gen(self, stage):
+        hyps, opt, goal = self.hyps, self.opt, self.goal
+        if stage == "all":
+            return to_smt2(hyps, goal)
+        if stage == "all+opt":
+            return to_smt2(hyps + opt, goal) if opt else None
+        if stage == "pure":
+            return to_smt2([], skolemize_goal(goal)[0]) if hyps else None
+        if stage in ("inst", "inst+ufabs"):
+            if not self.has_quant() or not self.inst():
+                return None
+            ih, ig = self.inst()
+            if stage == "inst":
+                return to_smt2(ih, ig)
+            c2 = {}
+            return to_smt2([uf_abstract(h, c2) for h in ih], uf_abstract(ig, c2))
+        if stage == "ufabs":
+            cache = {}
+            hh = [uf_abstract(h, cache) for h in hyps + opt]
+            gg = uf_abstract(goal, cache)
+            if all(a.eq(b) for a, b in zip(hh + [gg], hyps + opt + [goal])):
+                return None
+            return to_smt2(hh, gg)
+        if stage in ("ring", "ring+ufabs"):
+            from . import ring
+            if self.has_quant() and self.inst():
+                base_h, base_g = self.inst()
+            else:
+                base_h, base_g = hyps + opt, skolemize_goal(goal)[0]
+            nq = ring.normalize_query(base_h, base_g)
+            if nq is None:
+                return None
+            if stage == "ring":
+                return to_smt2(nq[0], nq[1])
+            c3 = {}
+            return to_smt2([uf_abstract(h, c3) for h in nq[0]], uf_abstract(nq[1], c3))
+        if stage.startswith("cone"):
+            level = int(stage[4])
+            with_opt = stage.endswith("+opt")
+            if with_opt and not opt:
+                return None
+            pool = hyps + (opt if with_opt else [])
+            sub = cone(pool, goal, level)
+            if len(sub) == len(pool):
+                return None
+            return to_smt2(sub, goal)
+        if stage.startswith("cand"):
+            ci = int(stage[4:])
+            if ci >= len(self.cands):
+                return None
+            subst, extra, label = self.cands[ci]
+            g2, _sk2 = skolemize_goal(goal)
+            allh = hyps + opt + list(extra)
+            weakened = False
+            if any(_has_quant(h) for h in allh):
+                try:
+                    allh, g2 = instantiate(allh, goal)
+                    weakened = True
+                except z3.Z3Exception:
+                    pass
+            if subst:
+                allh = _subst(allh, subst)
+                g2 = _subst([g2], subst)[0]
+            lab = dict(label)
+            lab.update(subst)
+            return (to_smt2(allh, g2), lab, weakened)
+        return None
+
+
+PROVE_ORDER = ["all", "all+opt", "pure", "inst", "inst+ufabs", "ufabs", "ring+ufabs", "ring", "cone0", "cone0+opt",
+               "cone1", "cone1+opt"]
+
+
 def discharge_all(obligs, timeout_s=10, workers=16):
-    """obligs: list of (hyps, opt, goal[, candidates[, hint]]).  Round 1 tries the plain query with a short budget
-    (cheap to generate, decides most obligations); only the rest get the full stage ladder."""
+    """obligs: list of (hyps, opt, goal[, candidates[, hint]]).
+
+    Stage-major ladder: for each stage, the texts of the still-open obligations are generated (main thread: the z3 API
+    is not thread-safe) and solved in parallel (one solver process per query); solved obligations leave the ladder.
+    First with a short budget, then with the full one.  Dropping / instantiating hypotheses is sound for proving;
+    only a model of ALL hypotheses is a refutation, a model of a weakened query is a candidate (confirmed natively)."""
     n = len(obligs)
+    st = [Staged(o[0], o[1], o[2], o[3] if len(o) > 3 else ()) for o in obligs]
+    hints = [o[4] if len(o) > 4 else None for o in obligs]
     results = [None] * n
-    first = [to_smt2(o[0], o[2]) for o in obligs]
-    short = min(4, timeout_s)
-    with ThreadPoolExecutor(max_workers=workers) as ex:
-        r1 = list(ex.map(lambda t: run_one(t, short, use_cvc5=False), first))
-    todo = []
-    for i, (o, r) in enumerate(zip(obligs, r1)):
-        if r["verdict"] == "unsat":
-            r["stage"] = "all"
-            results[i] = r
-        else:
-            todo.append(i)
-    prepared = {}
-    for i in todo:
-        o = obligs[i]
-        prepared[i] = (prepare_staged(o[0], o[1], o[2], o[3] if len(o) > 3 else ()), o[4] if len(o) > 4 else None)
-    with ThreadPoolExecutor(max_workers=workers) as ex:
-        r2 = list(ex.map(lambda i: discharge_staged(prepared[i][0], timeout_s, prepared[i][1]), todo))
-    for i, r in zip(todo, r2):
-        r["time"] += r1[i]["time"]
+    total = [0.0] * n
+    last_full = [None] * n
+    candidate = [None] * n
+    open_ = set(range(n))
+
+    def run_stage(stage, idxs, budget, use_cvc5):
+        jobs = []
+        for i in idxs:
+            t = st[i].text(stage)
+            if t is None:
+                continue
+            jobs.append((i, t))
+        if not jobs:
+            return
+        with ThreadPoolExecutor(max_workers=workers) as ex:
+            outs = list(ex.map(lambda job: run_one(job[1][0] if isinstance(job[1], tuple) else job[1], budget,
+                                                   use_cvc5=use_cvc5 and stage in ("all", "all+opt")), jobs))
+        for (i, t), r in zip(jobs, outs):
+            total[i] += r["time"]
+            full_key = "all+opt" if st[i].opt else "all"
+            if stage.startswith("cand"):
+                if r["verdict"] == "sat":
+                    r["model"].update(t[1])
+                    if t[2]:
+                        r["candidate_only"] = True
+                    r["stage"] = stage
+                    results[i] = r
+                    open_.discard(i)
+                continue
+            if r["verdict"] == "unsat":
+                r["stage"] = stage
+                results[i] = r
+                open_.discard(i)
+            elif r["verdict"] == "sat":
+                if stage == full_key:
+                    r["stage"] = stage
+                    results[i] = r
+                    open_.discard(i)
+                elif stage == "inst" and candidate[i] is None:
+                    candidate[i] = r
+            if stage == full_key and i in open_:
+                last_full[i] = r
+
+    for budget, use_cvc5 in ((min(4, timeout_s), False), (timeout_s, True)):
+        # hinted stages first
+        by_hint = {}
+        for i in sorted(open_):
+            h = hints[i]
+            if h:
+                by_hint.setdefault(h.replace("(hint)", ""), []).append(i)
+        for h, idxs in by_hint.items():
+            run_stage(h, [i for i in idxs if i in open_], budget, False)
+        for stage in PROVE_ORDER:
+            if not open_:
+                break
+            run_stage(stage, sorted(open_), budget, use_cvc5)
+        # bounded counterexample search over candidate instantiations
+        maxc = max([len(x.cands) for x in st] + [0])
+        for ci in range(maxc):
+            if not open_:
+                break
+            run_stage(f"cand{ci}", sorted(open_), budget, False)
+        for i in sorted(open_):
+            if candidate[i] is not None:
+                r = candidate[i]
+                r["stage"] = "inst"
+                r["candidate_only"] = True
+                results[i] = r
+                open_.discard(i)
+    for i in sorted(open_):
+        r = last_full[i] or {"verdict": "unknown", "backend": "z3", "model": {}, "raw": ""}
+        r["stage"] = "all+opt" if st[i].opt else "all"
         results[i] = r
+    for i in range(n):
+        results[i]["time"] = total[i]
     return results
 
 
